@@ -4,7 +4,7 @@ Proof: Params.v theorems (totality, classification, defaults, normalisation, ord
 /updateCache) + hour-index totality.  Tie: L1 (parameter factories called directly on (key,value) lists)
 and L3 (raw HTTP against the real binary: status line, Content-Length, JSON body, errorCode, echoed
 query; liveness after every request; /updateCache name handling; ready and not-ready data)."""
-import os, sys, time, json, shutil, itertools, urllib.parse
+import re, os, sys, time, json, shutil, itertools, urllib.parse
 import build, checklib as cl, run, gen, l3
 from check_c12 import cl_open
 
@@ -102,6 +102,27 @@ def parse_http(kind, st, hd, body):
     return "http %s other %s" % (st, s)
 
 
+def echo_defect(kind, fields, body):
+    """the points echoed in `query` of a 200 answer must be the points of the request, [longitude, latitude] in that order
+    (only judged when the parameter occurs once and reads as two plain decimal numbers); -> text of the defect or None"""
+    try:
+        j = json.loads(body.decode("utf-8"))
+    except Exception:
+        return None
+    if j.get("status") not in ("success", "no_routing_found") or not isinstance(j.get("query"), dict):
+        return None
+    for key in (("place",) if kind == "access" else ("origin", "destination")):
+        vals = [v for (k, v) in fields if k == key]
+        if len(vals) != 1 or not re.fullmatch(r"-?\d+(\.\d+)?,-?\d+(\.\d+)?", vals[0]):
+            continue
+        lon, lat = map(float, vals[0].split(","))
+        got = j["query"].get(key)
+        if not (isinstance(got, list) and len(got) == 2 and all(isinstance(x, (int, float)) for x in got)
+                and abs(got[0] - lon) <= 1e-4 * max(1.0, abs(lon)) and abs(got[1] - lat) <= 1e-4 * max(1.0, abs(lat))):
+            return "query.%s echoed as %r, the request says %s (longitude, latitude)" % (key, got, vals[0])
+    return None
+
+
 def main(pid, tier, seed, replay_path=None):
     t0 = time.time()
     po = cl.proof_obligations(pid)
@@ -173,6 +194,9 @@ def main(pid, tier, seed, replay_path=None):
                 ok = False
             if not ok:
                 fails.append(("response %r is not the documented classification %s of this request" % (got, sorted(allowed)), qs_of(kind, full)))
+            bad_echo = echo_defect(kind, full, body) if st == 200 else None
+            if bad_echo:
+                fails.append((bad_echo, qs_of(kind, full)))
             if "queryerror" in got:
                 code = got.split()[3]
                 nontriv.add(qs_of(kind, full))
@@ -191,6 +215,9 @@ def main(pid, tier, seed, replay_path=None):
                 summary_evals += 1
                 if got2 not in allowed:
                     fails.append(("/v2/summary response %r is not the documented classification %s of this request" % (got2, sorted(allowed)), sqs))
+                bad_echo = echo_defect(kind, full, body2) if st2 == 200 else None
+                if bad_echo:
+                    fails.append(("/v2/summary: " + bad_echo, sqs))
                 if not srv.alive():
                     fails.append(("server process died (exit %s)" % srv.exit_status(), sqs))
                     srv = l3.Server(binary, cache, stub.port)
